@@ -60,7 +60,7 @@ func runC12(ci interface{}) Result {
 		dumpHang(sc, tr)
 		return r
 	}
-	r.Classes = append(r.Classes, "refresh:"+sc.Cfg.Refresh)
+	r.Classes = append(append(r.Classes, "refresh:"+sc.Cfg.Refresh), featureClasses(sc)...)
 	// column of every synchronised decorator
 	col := map[[2]int]c12Col{}
 	for bi, b := range sc.Bars {
@@ -112,8 +112,62 @@ func runC12(ci interface{}) Result {
 	sort.Slice(cycles, func(i, j int) bool { return cycles[i] < cycles[j] })
 	shared, differ, memberChange := false, false, false
 	var prevBars string
+	// bars shown in the frame each cycle wrote (buffer output: one chunk per frame)
+	var begins []int64
+	for _, e := range tr.Events {
+		if e.Point == "render.begin" {
+			begins = append(begins, e.Seq)
+		}
+	}
+	shownIn := map[int64]map[int]bool{}
+	for _, f := range tr.Frames() {
+		cyc := int64(sort.Search(len(begins), func(i int) bool { return begins[i] > f.Seq }))
+		whole := f.BadCtl == "" && !f.Partial
+		for _, ln := range f.Lines {
+			if ln.Kind == "other" {
+				whole = false // a row that was cut: the bar it belongs to cannot be told
+			}
+		}
+		if !whole || shownIn[cyc] != nil {
+			shownIn[cyc] = map[int]bool{-1: true} // not usable
+			continue
+		}
+		shownIn[cyc] = map[int]bool{}
+		for _, ln := range f.Lines {
+			if ln.Kind == "bar" {
+				shownIn[cyc][ln.Bar] = true
+			}
+		}
+	}
 	for _, cyc := range cycles {
 		es := byCycle[cyc]
+		// "one common width across all bars shown in that frame, equal to the largest
+		// any of them needs": a bar that took part in the exchange but is not in the
+		// frame must not be the one that sets the width
+		if shown := shownIn[cyc]; shown != nil && !shown[-1] {
+			maxShown, maxAll := map[c12Col]int{}, map[c12Col]int{}
+			hidden := -1
+			for _, e := range es {
+				if c, ok := col[[2]int{e.p.Bar, e.p.Decor}]; ok {
+					if e.need > maxAll[c] {
+						maxAll[c] = e.need
+					}
+					if shown[e.p.Bar] {
+						if e.need > maxShown[c] {
+							maxShown[c] = e.need
+						}
+					} else {
+						hidden = e.p.Bar
+					}
+				}
+			}
+			for c, w := range maxAll {
+				if n, ok := maxShown[c]; ok && w > n {
+					r.Err, r.Kind = fmt.Errorf("cycle %d: sync column %d on side %d is %d wide because of bar %d, which is not shown in that frame; the widest need among the bars shown is %d", cyc, c.ord, c.side, w, hidden, n), "width-of-absent-bar"
+					return r
+				}
+			}
+		}
 		max := map[c12Col]int{}
 		cnt := map[c12Col]map[int]bool{}
 		bars := map[int]bool{}
